@@ -409,3 +409,40 @@ impl From<&Cfg> for ExchangedCfg {
         }
     }
 }
+
+/// Verification hooks (add-only, compiled only with `--cfg remoc_verif`).
+#[cfg(remoc_verif)]
+#[allow(missing_docs, private_interfaces, dead_code, clippy::all)]
+pub mod verif_hooks {
+    use super::*;
+
+    pub fn msg_write(msg: &MultiplexMsg, writer: &mut Vec<u8>) -> Result<(), io::Error> {
+        msg.write(writer)
+    }
+
+    pub fn msg_to_vec(msg: &MultiplexMsg) -> Vec<u8> {
+        msg.to_vec()
+    }
+
+    pub fn msg_read(data: &[u8]) -> Result<MultiplexMsg, io::Error> {
+        MultiplexMsg::read(data)
+    }
+
+    pub fn msg_from_slice<A, B>(data: &[u8]) -> Result<MultiplexMsg, ChMuxError<A, B>> {
+        MultiplexMsg::from_slice(data)
+    }
+
+    pub fn cfg_write(cfg: &ExchangedCfg, writer: &mut Vec<u8>) -> Result<(), io::Error> {
+        cfg.write(writer)
+    }
+
+    pub fn cfg_read(data: &[u8]) -> Result<ExchangedCfg, io::Error> {
+        ExchangedCfg::read(data)
+    }
+
+    pub fn exchanged_from_cfg(cfg: &Cfg) -> ExchangedCfg {
+        cfg.into()
+    }
+
+    pub const MAX_MSG_LENGTH: usize = super::MAX_MSG_LENGTH;
+}
